@@ -61,7 +61,10 @@ def main():
     seed = int(os.environ.get("VERIF_SEED", "0") or 0)
     t0 = time.time()
     meta = load_meta().get(prop, {})
-    known = [k for k in load_known() if k.get("property") == prop]
+    # findings recorded under this property, plus findings recorded under another property whose witness lives in a unit that
+    # also serves this one (a unit may serve several properties; its expect=fail harness / refuted variant is the same finding)
+    all_known = load_known()
+    known = [k for k in all_known if k.get("property") == prop]
     vunits, kunits = discover(prop, a.all_units)
     if a.unit:
         vunits = [(p, t) for p, t in vunits if os.path.splitext(os.path.basename(p))[0] in a.unit]
@@ -116,6 +119,10 @@ def main():
 
     # ---------------- classification
     violations, undecided, known_lines = [], [], []
+    served_units = {os.path.splitext(os.path.basename(p))[0] for p in vunits} | {u["unit"] for u in kunit_objs}
+    for k in all_known:
+        if k not in known and k.get("status") == "known" and k.get("unit") in served_units and (k.get("harness") or k.get("verus_obligation")):
+            known.append(k)
     known_by_harness = {k["harness"]: k for k in known if k.get("status") == "known" and k.get("harness")}
     known_by_oblig = [k for k in known if k.get("status") == "known" and k.get("verus_obligation")]
     os.makedirs(os.path.join(VERIF, "replay", prop), exist_ok=True)
